@@ -30,11 +30,15 @@ from .core import Case
 TIMING_RE = re.compile(r"(in|took) \d+\.\d+s")
 
 
+PADDING = "\n" + "".join(f"zz_pad_{i} :: (x: i64) -> i64 {{ x * {i + 3} + {i * 7919} }}\n" for i in range(12)) + \
+    "zz_pad_all :: (x: i64) -> i64 { " + " + ".join(f"zz_pad_{i}(x)" for i in range(12)) + " }\n"
+
+
 def normalise(text):
     return TIMING_RE.sub(r"\1 Xs", text)
 
 
-def compile_once(jobdir, files, mod, wrapper=(), env_extra=None, clean=True):
+def compile_once(jobdir, files, mod, wrapper=(), env_extra=None, clean=True, keep_stale=False):
     """-> (object sha or None, normalised output, exit status)"""
     if clean:
         shutil.rmtree(jobdir, ignore_errors=True)
@@ -44,9 +48,14 @@ def compile_once(jobdir, files, mod, wrapper=(), env_extra=None, clean=True):
         os.makedirs(os.path.dirname(p), exist_ok=True)
         with open(p, "w") as f:
             f.write(text)
-    # a stale object must not be mistaken for this compilation's
+    # a stale object must not be mistaken for this compilation's: it is removed, or (history runs, where overwriting the
+    # predecessor's object is part of what is checked) back-dated so that a write by this compilation is recognisable
+    stale = os.path.join(jobdir, "out", "main.o")
     try:
-        os.remove(os.path.join(jobdir, "out", "main.o"))
+        if keep_stale:
+            os.utime(stale, ns=(10 ** 18, 10 ** 18))
+        else:
+            os.remove(stale)
     except OSError:
         pass
     env = dict(os.environ)
@@ -61,7 +70,8 @@ def compile_once(jobdir, files, mod, wrapper=(), env_extra=None, clean=True):
     # the working directory is part of the configuration's *location*, not of its source files
     out = normalise(p.stdout.decode("utf8", "replace").replace(os.path.realpath(jobdir), "<CWD>").replace(jobdir, "<CWD>"))
     obj = os.path.join(jobdir, "out", "main.o")
-    sha = hashlib.sha256(open(obj, "rb").read()).hexdigest() if os.path.exists(obj) else None
+    written = os.path.exists(obj) and os.stat(obj).st_mtime_ns != 10 ** 18
+    sha = hashlib.sha256(open(obj, "rb").read()).hexdigest() if written else None
     return sha, out, p.returncode
 
 
@@ -121,6 +131,8 @@ def run(tier, seed):
                    f"main :: () -> i32 {{\n    n : Len = 41;\n    bump(^mut n);\n    printf(\"%ld\\n\", i64.(n));\n    0\n}}\n")
             configs.append((f"comptime-type-choice/{a}-or-{b}/{'first' if pick_first else 'second'}", {"main.capy": src}))
     others = [multifile.render(b, tuple(n for n, _ in b.globs), dict.fromkeys([n for n, _ in b.globs], 0)) for b in multifile.BASES[:3]]
+    # ... and one predecessor whose object file is larger than every configuration's (the stale object is overwritten in place)
+    others.append({"main.capy": big.replace("    0\n}\n", "    v0.b0 = 1;\n    0\n}\n") if " v0.b0" in big else big + "\npad_fn :: () -> i64 { 12345 }\n"})
     hist_len = 1 if quick else 2
     histories = [()]
     for k in range(1, hist_len + 1):
@@ -146,8 +158,15 @@ def run(tier, seed):
             hd = d + "h" + "".join(map(str, h))
             shutil.rmtree(hd, ignore_errors=True)
             for o in h:
-                compile_once(hd, others[o], mod, clean=False)
-            results.append((f"after-{'-'.join(map(str, h))}", compile_once(hd, files, mod, clean=False)))
+                compile_once(hd, others[o], mod, clean=False, keep_stale=True)
+            results.append((f"after-{'-'.join(map(str, h))}", compile_once(hd, files, mod, clean=False, keep_stale=True)))
+        # ... and after a slightly larger variant of the configuration itself (its object is at least as long)
+        hd = d + "hp"
+        shutil.rmtree(hd, ignore_errors=True)
+        padded = dict(files, **{"main.capy": files["main.capy"] + PADDING})
+        compile_once(hd, padded, mod, clean=False, keep_stale=True)
+        results.append(("after-padded-self", compile_once(hd, files, mod, clean=False, keep_stale=True)))
+        shutil.rmtree(hd, ignore_errors=True)
         ref = results[0][1]
         problems = []
         for name, r in results[1:]:
@@ -181,8 +200,8 @@ def run(tier, seed):
                 "all compilations of a configuration must give byte-identical main.o and identical output",
         "bounds_completed": {"configurations": len(configs), "valid": sum(1 for k, _ in configs if "/valid" in k),
                              "invalid": sum(1 for k, _ in configs if "/valid" not in k),
-                             "runs_per_configuration": 5 + len(histories) - 1,
-                             "histories": f"every ordered choice of <= {hist_len} predecessors out of 3 programs compiled before in the same directory"},
+                             "runs_per_configuration": 6 + len(histories) - 1,
+                             "histories": f"every ordered choice of <= {hist_len} predecessors out of {len(others)} programs (one with a larger object file than every configuration) compiled before in the same directory, the stale out/ left in place"},
         "distinct_outcomes": len(outcomes),
         "compilations": runs_total[0],
         "samples": [{"config": k, "files": sorted(f)} for k, f in (configs[0], configs[len(configs) // 2], configs[-1])],
